@@ -374,9 +374,23 @@ def part_valid(ctx, tmp):
         items.append({"id": f"nested{i}", "src": src, "how": "nested-containers", "base": nm})
     for i in range(14 if ctx.tier == "quick" else 600):
         items.append({"id": f"valid{i}", "src": c20_valid_gen.gen_program(rnd), "how": "c20_valid_gen", "base": f"valid{i}"})
+    # "at every optimisation level" holds for every EVM target: each accepted program is compiled by all 8 pipeline x level
+    # configurations for ONE target, rotating over the programs (an offset from the seed moves the assignment between runs),
+    # so that every (generator, level, target) triple is exercised by several programs in every run
+    evms = ("london", "paris", "shanghai", "cancun", "prague")
+    off = rnd.randrange(len(evms))
+    per_evm = collections.Counter()
+    for i, it in enumerate(items):
+        text = it.get("src") or "\n".join(str(v) for v in it.get("files", {}).values())
+        if "transient" in text or "tload" in text or "mcopy" in text or "blob" in text:      # cancun-only features
+            it["evm"] = ("cancun", "prague")[(i + off) % 2]
+        else:
+            it["evm"] = evms[(i + off) % len(evms)]
+        per_evm[it["evm"]] += 1
+    ctx.corr["valid_programs_per_evm_target"] = dict(per_evm)
     nsh = 3
     shards = [items[k::nsh] for k in range(nsh)]
-    strip = lambda it: {k: v for k, v in it.items() if k in ("id", "src", "files", "target", "paths")}  # noqa
+    strip = lambda it: {k: v for k, v in it.items() if k in ("id", "src", "files", "target", "paths", "evm")}  # noqa
     with ThreadPoolExecutor(max_workers=nsh) as ex:
         rows = [r for rs in ex.map(lambda k: run_shard(tmp, 10 + k, [strip(it) for it in shards[k]], 8, ALL_CONFIGS), range(nsh)) for r in rs]
     return classify_rows(ctx, rows, items, "valid")
